@@ -8,7 +8,6 @@ package c17
 
 import (
 	"fmt"
-	"os"
 	"sort"
 	"strings"
 	"sync"
@@ -742,5 +741,5 @@ func TestCheck(t *testing.T) {
 	nRace := r.Pick(120, 2500)
 	h.Parallel(nRace, 16, func(i int) { startStopRace(r, i) })
 	r.Count("start_stop_race_runs", int64(nRace))
-	os.Exit(r.Finish(30))
+	h.Exit(r.Finish(30))
 }
